@@ -35,6 +35,8 @@ class Contract:
     note: str = ''
     min_obligations: int = 1
     inline_only: bool = False
+    hints: list[str] = field(default_factory=list)   # spec expressions evaluated at return points (facts only)
+    nla_uf: bool = False           # products of two symbolic reals as an uninterpreted function
 
 
 class Registry:
